@@ -9,6 +9,9 @@ mod ast;
 mod c01;
 mod c05;
 mod c06;
+mod c07;
+mod c08;
+mod c17;
 
 use proto::Recorder;
 use std::path::PathBuf;
@@ -37,7 +40,11 @@ fn main() {
         }
     }
     // silence panic messages of caught panics
-    std::panic::set_hook(Box::new(|_| {}));
+    if std::env::var("VERIF_PANIC").is_ok() {
+        std::panic::set_hook(Box::new(|i| { eprintln!("panic: {}", i); }));
+    } else {
+        std::panic::set_hook(Box::new(|_| {}));
+    }
     let mut rec = Recorder::new(&out);
     rec.budget = budget;
     let mut w = interp::World::new();
@@ -53,6 +60,9 @@ fn main() {
         "C01" => c01::run(&mut rec, &mut w, &tier, seed),
         "C05" => c05::run(&mut rec, &mut w, &tier, seed),
         "C06" => c06::run(&mut rec, &mut w, &tier, seed),
+        "C07" => c07::run(&mut rec, &mut w, &tier, seed),
+        "C08" => c08::run(&mut rec, &mut w, &tier, seed),
+        "C17" => c17::run(&mut rec, &mut w, &tier, seed),
         "C02" => c02::run(&mut rec, &mut w, &tier, seed),
         "C03" => c03::run(&mut rec, &mut w, &tier, seed),
         "C04" => c04::run(&mut rec, &mut w, &tier, seed),
